@@ -31,7 +31,7 @@ impl ConcurrentNodeIds {
     #[verifier::external_body]
     pub fn next_g_(&self, tmp: &mut TmpNodes) -> (r: Result<u32>)
         ensures
-            final(tmp).tv() == old(tmp).tv(),
+            final(tmp).tv() == old(tmp).tv(), final(tmp).rm() == old(tmp).rm(),
             match r {
                 // A2: the tree-id space is not exhausted (id != u32::MAX needs fewer than 2^32 - 1 allocated tree ids)
                 Ok(id) => id != u32::MAX && !self.used0().contains(id) && !old(tmp).allocated().contains(id) && final(tmp).allocated() == old(tmp).allocated().insert(id)
